@@ -9,7 +9,9 @@ Definition TAB : string := String (ascii_of_N 9) EmptyString.
 Definition out3 (m s k : string) : string := m ++ TAB ++ s ++ TAB ++ k.
 
 Definition dispatch (kind : string) (args : list string) : string :=
-  if String.eqb kind "hist" then
+  (* hist: all frames through one receive buffer; histf: a fresh buffer per frame.  The model does not
+     distinguish them (retained fields are values): any difference is a correspondence failure. *)
+  if String.eqb kind "hist" || String.eqb kind "histf" then
     match parse_cfg args with
     | Some (c, rest) =>
         match parse_ops rest with
